@@ -178,6 +178,8 @@ func (r *R) Gen(ctx sdk.Context, g *hx.Rng) string {
 	//            issue edit mint burn xfer swapfee deploy toerc fromerc hook fault params
 	if r.mix == "c10" {
 		kind = g.Pick(8, 2, 12, 4, 2, 16, 8, 16, 14, 9, 5, 1)
+	} else if r.mix == "base" {
+		kind = g.Pick(10, 14, 20, 20, 8, 6, 0, 0, 0, 0, 0, 2)
 	} else {
 		kind = g.Pick(10, 14, 20, 20, 8, 3, 2, 3, 2, 1, 1, 2)
 	}
